@@ -23,7 +23,7 @@ SCOPE = (r"api/src/source|api/src/(graph|dataset)\.rs$|api/src/(graph|dataset)/(
          r"/serializer|inmem/src/|jsonld/src/parser|api/src/serializer\.rs$|api/src/parser\.rs$")
 CALLBACK = r"ops::FnMut<.*>>?::call_mut$|ops::Fn<.*>>?::call$|ops::FnOnce<.*>>?::call_once$|ops::FnMut::call_mut$|ops::Fn::call$|ops::FnOnce::call_once$"
 SOURCE_OPS = r"iter::Iterator::next$|Iterator>::next$|TriplesParser::parse_step$|QuadsParser::parse_step$|GeneralizedQuadsParser::parse_step$|::parse_step$"
-VALUE_ATTEMPTS = r"str>::parse$|convert::TryFrom::try_from$|convert::TryInto::try_into$|^sophia_iri::Iri(Ref)?::<T>::new$|^sophia_api::term::(BnodeId|LanguageTag|VarName)::<T>::new$"
+VALUE_ATTEMPTS = r"::try_reserve(_exact)?$|str>::parse$|convert::TryFrom::try_from$|convert::TryInto::try_into$|^sophia_iri::Iri(Ref)?::<T>::new$|^sophia_api::term::(BnodeId|LanguageTag|VarName)::<T>::new$"
 STREAM_ERR = ("sophia_api::source::_stream_error::StreamError",)
 
 
@@ -356,6 +356,89 @@ def partial_write_rule(ck, facts, fns):
     return n
 
 
+def rewrapped_io_errors(fn):
+    """R15.9: io::Error::new(kind, e) / io::Error::other(e) whose payload is itself an io::Error (the writer's error re-wrapped:
+    kind and raw OS error are lost)"""
+    out = []
+    for bi, t in fn.calls():
+        if call_name_matches(t, r"^std::io::Error::(new|other)$"):
+            subs = t["f"].get("substs") or []
+            if any(sx.strip() == "std::io::Error" for sx in subs):
+                out.append(t)
+    return out
+
+
+def constant_zero_hints(facts):
+    """names (last path segment) of size-hint methods all of whose bodies in the workspace return the constant (0, ..):
+    nothing can be pre-allocated from them"""
+    by = {}
+    for f in facts.fns.values():
+        m = re.search(r"(size_hint_\w+)$", f.name)
+        if not m or f.kind == "Closure":
+            continue
+        const0 = not list(f.calls()) and any(st[0] == "=" and st[1] == [0] and st[2][0] == "agg" and st[2][1].get("k") == "tuple"
+                                             and st[2][2] and st[2][2][0][0] == "k" and st[2][2][0][1].get("v") == "0" for b in f.blocks for st in b["s"])
+        by.setdefault(m.group(1), []).append(const0)
+    return {k for k, v in by.items() if v and all(v)}
+
+
+def capacity_from_hint(fn, zero_hints=()):
+    """R15.10: with_capacity(size_hint.0): a hint is not a promise; a huge lower bound makes the allocation panic"""
+    out = []
+    for bi, t in fn.calls():
+        if call_name_matches(t, r"::with_capacity(_and_hasher|_in)?$") and t["args"]:
+            for p in provenance(fn, t["args"][0]):
+                if p[0] == "call" and re.search(r"size_hint(_\w+)?$", p[1]["f"].get("name") or ""):
+                    if (p[1]["f"].get("name") or "").split("::")[-1] in zero_hints:
+                        continue        # every implementation of this hint answers (0, ..)
+                    out.append(t)
+                    break
+    return out
+
+
+def sink_error_rules(ck, facts, fns):
+    import core
+    ck.control("R15.9", "pos_rewrapped_io_error", any(rewrapped_io_errors(c) for c in core.fixture_facts().with_closures(core.fixture_fn("pos_rewrapped_io_error"))))
+    ck.control("R15.9", "neg_io_error_from_message", any(rewrapped_io_errors(c) for c in core.fixture_facts().with_closures(core.fixture_fn("neg_io_error_from_message"))), expect=False)
+    ck.control("R15.10", "pos_capacity_from_hint", bool(capacity_from_hint(core.fixture_fn("pos_capacity_from_hint"))))
+    ck.control("R15.10", "neg_try_reserve_from_hint", bool(capacity_from_hint(core.fixture_fn("neg_try_reserve_from_hint"))), expect=False)
+    n9 = n10 = 0
+    zero = constant_zero_hints(facts)
+    for fn in fns:
+        root = fn if fn.kind != "Closure" else facts.fns.get(fn.root, fn)
+        for t in rewrapped_io_errors(fn):
+            n9 += 1
+            ck.bad("R15.9", "R15.9@%s#rewrapped-io-error" % panics_key(root.name), "%s wraps an io::Error of the writer in a new io::Error: a "
+                   "BrokenPipe or an OS error (ENOSPC) reaches the caller with another kind and no raw OS error - the original error value "
+                   "is not what is reported" % root.name, "%s:%s" % (t["file"], t["line"]))
+        for t in capacity_from_hint(fn, zero):
+            n10 += 1
+            ck.bad("R15.10", "R15.10@%s#capacity-from-hint" % panics_key(root.name), "%s allocates the lower bound of a size hint up front: for a "
+                   "fallible source the bound also counts the items after the first error, and a huge bound panics (capacity overflow) "
+                   "instead of delivering the source's error" % root.name, "%s:%s" % (t["file"], t["line"]))
+    if not n9:
+        ck.ok("R15.9", "no writer error is re-wrapped in the stream/serializer scope")
+    if not n10:
+        ck.ok("R15.10", "no collector allocates a (possibly non-zero) size hint up front; hints that are constantly 0 in the workspace: %s" % sorted(zero))
+    # R15.11: a filtering adapter must not forward the lower bound of its source
+    n11 = 0
+    for fn in facts.fns.values():
+        if fn.crate == "sophia_api" and re.search(r"source::filter(_map)?::.*size_hint(_\w+)?$", fn.name) and fn.kind != "Closure":
+            n11 += 1
+            fw = [t for _, t in fn.calls() if re.search(r"size_hint(_\w+)?$", t["f"].get("name") or "") and t["dest"] == [0]]
+            if fw:
+                ck.bad("R15.11", "R15.11@%s#forwards-lower-bound" % panics_key(fn.name), "%s returns the size hint of the unfiltered source: the lower "
+                       "bound promises items the filter may drop" % fn.name, fn.loc)
+            else:
+                ck.ok("R15.11", "%s does not forward the source's lower bound" % fn.name)
+    ck.floor("R15.11", "size hints of filtering adapters", n11, 5)
+
+
+def panics_key(name):
+    import panics
+    return panics.norm_key(name)
+
+
 def run(ck, facts, tier):
     facts.require_crates(["sophia_api", "sophia_rio", "sophia_turtle", "sophia_inmem", "sophia_xml", "sophia_jsonld"])
     import core
@@ -400,6 +483,7 @@ def run(ck, facts, tier):
     fifo_rule(pr, fx, [core.fixture_fn("Buffered::pos_lifo_next"), core.fixture_fn("Buffered::neg_fifo_next")])
     ck.control("R15.7", "Buffered::pos_lifo_next (Vec::push / Vec::pop)", pr.fired(r"pos_lifo_next#lifo-buffer$"))
     ck.control("R15.7", "Buffered::neg_fifo_next (push_back / pop_front)", pr.fired(r"neg_fifo_next"), expect=False)
+    sink_error_rules(ck, facts, fns)
     n = writer_rule(ck, facts)
     ck.floor("R15.5", "line-oriented serializer closures", n, 2)
     ck.assumptions = ["position bookkeeping inside rio_turtle/rio_xml/json-ld is not decided",
